@@ -744,7 +744,7 @@ def gen_src(unit_name):
     return run_src
 
 
-GEN_SRC = {n: gen_src(n) for n in ("SrcKmpLps", "SrcShiftAndMasks", "SrcHorspoolNew", "SrcFenwick", "SrcBitEnc", "SrcBwt")}
+GEN_SRC = {n: gen_src(n) for n in ("SrcKmpLps", "SrcShiftAndMasks", "SrcHorspoolNew", "SrcFenwick", "SrcBitEnc", "SrcBwt", "SrcPrescan")}
 
 
 # ------------------------------------------------------------------------------------------ theorem modules built here
@@ -792,7 +792,7 @@ EXTRACTORS = {
     "C02": [gen_limits, gen_tbcodes],
     "C16": [gen_limits, verify_modules(["RbV.Thm.GenLimits"])],
     "C03": [gen_occ],
-    "C04": [gen_occ, GEN_SRC["SrcBwt"]],
+    "C04": [gen_occ, GEN_SRC["SrcBwt"], GEN_SRC["SrcPrescan"]],
     # translated function bodies (tools/rs2lean.py); Thm/C08.lean imports RbV.Thm.GenSrc* and restates the theorems
     "C08": [GEN_SRC["SrcKmpLps"], GEN_SRC["SrcShiftAndMasks"], GEN_SRC["SrcHorspoolNew"]],
     "C18": [GEN_SRC["SrcFenwick"], GEN_SRC["SrcBitEnc"]],
